@@ -183,4 +183,20 @@ CONFIG = {
         "quick": {"checks": 60, "shards": 16},
         "thorough": {"checks": 1200, "shards": 16, "timeout": 7200},
     },
+    "C03": {
+        "rule": "one rapid property per indicator registry entry (configuration x per-input lengths: common n in [0, 2w+6] or up to 3w+40, each input independently redrawn in [0, n+8] "
+                "in a third of the draws), per base strategy and one over decorator/compound expressions (snapshot counts biased to <= warm-up), each x input channel capacity in "
+                "{0,0,1,2,3,4,8} x GOMAXPROCS in {1,2,4,16} x producer/consumer pacing masks (a runtime.Gosched before element i when bit i%64 is set); every output drained by its own "
+                "reader. Oracle: (a) no deadlock: never a state in which all goroutines of the case are parked with outputs still open; (b) after completion no goroutine of the case "
+                "remains and every input was consumed to its end (both decided by consistent goroutine snapshots, runtime.Stack(all), not by timeouts); (c) outputs equal, value for "
+                "value, those of a reference execution with unbuffered inputs, no pacing and GOMAXPROCS=16. Non-trivial: unequal input lengths, or an input <= warm-up, or capacity > 0, "
+                "or >= 2 outputs (strategies: a compound expression). Distinct = (subject, configuration, lengths, capacity).",
+        "technique": "property-based testing (rapid) over configurations, input lengths, channel capacities, pacings and GOMAXPROCS with a goroutine-census deadlock/leak oracle and differential comparison against a reference schedule",
+        "level_text": "Pipelines are Kahn networks (blocking sends/receives only), hence determinate: whether a run deadlocks and what it emits depends on configuration, lengths and capacities, which are sampled densely; pacing and thread counts are varied to test that premise. Termination and leaks are verdicts of consistent goroutine snapshots, never timeouts. The scheduler itself is not owned: schedules are sampled, not enumerated.",
+        "level_note": "Relevant goroutines are those created during the case whose stack holds a library or harness feeder/reader frame; a 'stuck' verdict needs three identical consecutive snapshots. One case at a time per process.",
+        "assumptions": ["the library uses no select and no timers (grep), so a goroutine parked in a channel operation can only be released by another goroutine"],
+        "gomaxprocs": [16],
+        "quick": {"checks": 40, "shards": 16},
+        "thorough": {"checks": 1500, "shards": 16, "timeout": 10800},
+    },
 }
